@@ -6,6 +6,7 @@ from harness.gen import scenarios_a
 
 ID = "C14"
 PROP_FILE = "C14.v"
+SOFT_PINS = "core"
 TRANSLATORS = ["unicode_tables", "tables"]
 RULE = ("40% grammar-generated histories with periodic save ticks / stop+start cycles at random positions and a final stop+start, "
         "60% directed ones that end (1-3 times per history) with: save tick, ONE state-changing message of a chosen handler "
